@@ -6,6 +6,7 @@ mod c10;
 mod env;
 mod c01;
 mod c12;
+mod c13;
 
 use util::Ctx;
 
@@ -35,6 +36,7 @@ fn main() {
         ("gen", "C10") => c10::gen(&mut ctx),
         ("gen", "C01") => c01::gen(&mut ctx),
         ("gen", "C12") => c12::gen(&mut ctx),
+        ("gen", "C13") => c13::gen(&mut ctx),
         _ => { eprintln!("unknown command"); std::process::exit(2); }
     }
     ctx.finish(stats.as_deref());
